@@ -2,6 +2,11 @@ import Qhttp.Lemmas.ProxyRelay
 /-
   C12 — the invariant of whole proxy runs of the relay shape (`new`, client segments and turns
   in any order, the upstream server only listens).
+
+  The shape with an upstream server that answers at any time (`up` events anywhere) is treated in
+  `ProxyUpSock.lean` / `ProxyUp.lean` (`relayPEvU`, `AliveU` / `DeadU`, `prun_up`, `run_final_up`),
+  generically in the socket invariant; the theorems of this file are its special case without `up`
+  events and are kept as they were.
 -/
 namespace Qhttp.ProxyL
 open Qhttp Proxy Qhttp.C02
